@@ -128,8 +128,12 @@ def all_as_nonnull(chk, prog, files):
                 is_data = (isinstance(base_, ast.Name) and base_.id in params) or (isinstance(base_, ast.Attribute) and isinstance(base_.value, ast.Name) and base_.value.id == "self")
                 if isinstance(base_, ast.Name) and base_.id not in params:
                     defs_ = [x.value for x in _own_nodes(f.node) if isinstance(x, ast.Assign) and any(isinstance(t_, ast.Name) and t_.id == base_.id for t_ in x.targets)]
-                    if defs_ and all(isinstance(d_, ast.Attribute) and isinstance(d_.value, ast.Name) and d_.value.id == "self" for d_ in defs_):
-                        is_data = True       # a local alias of a stored sample array:  acc = self.acc
+                    def _stored(d_):
+                        if isinstance(d_, ast.Call) and _last(d_) in ("atleast_2d", "atleast_1d", "copy", "array", "asarray", "ascontiguousarray") and len(d_.args) >= 1:
+                            d_ = d_.args[0]
+                        return isinstance(d_, ast.Attribute) and isinstance(d_.value, ast.Name) and d_.value.id == "self"
+                    if defs_ and all(_stored(d_) for d_ in defs_):
+                        is_data = True       # a local alias / copy of a stored sample array:  acc = self.acc, acc = np.atleast_2d(self.acc)
                 if is_data and not _flag_valued(a0):
                     chk.finding("ALL-AS-NONNULL", f.module.rel, f.qname, "%s as a per-row validity flag" % ast.unparse(c)[:60],
                                 "`%s` is true for a row only when EVERY component of it is non-zero: a valid sample with one exactly-zero component (a level device, an "
